@@ -50,6 +50,8 @@ def cases(tier, seed):
                 "chunk": rng.choice([1, 2, 5, 10 ** 6]), "nproc": 2 if h % 23 == 9 else 1}
         if h % 9 == 6:
             case["via"] = "cli"
+        if h % 6 == 4:
+            case["src_at"] = "/resolutions/%d" % b0              # the base is itself a level of another multires file
         if h % 5 == 3:
             # the output path was used before, for other data and another ladder
             case["prior"] = {"px": gen.random_store(rng, len(table), mode, maxval=4),
